@@ -25,10 +25,12 @@ RULE = (
     "full-grammar programs built by Hypothesis, rendered and then mutated at token level (0-5 deletions / duplications / swaps / replacements "
     "by other tokens of the program or by extreme literals such as 1E999, 40-digit numbers, &HFFFFFF, '.', '1E'), lines of two programs "
     "spliced, expressions wrapped in up to 200 parentheses, raw printable text; x drawn option sets incl. procedure names over [A-Za-z0-9_-.]+ and "
-    "valid / invalid size maps; plus input file names over [A-Za-z0-9_-]+ through decb_to_b09.start in a scratch directory. Non-trivial: a "
+    "valid / invalid size maps; plus input file names over [A-Za-z0-9_-]+ through decb_to_b09.start in a scratch directory, half of them with a "
+    "-c configuration file of the documented shape, a near-miss shape or any JSON-expressible shape (always well-formed YAML). Non-trivial: a "
     "mutated program that still parses, or one refused by a post-parse check; distinct by sha1 of (text, options)"
 )
 ASSUMPTIONS = [
+    "a configuration file is well-formed YAML without duplicate keys (a YAML syntax error is the YAML reader's refusal, not one of the tool's: not asserted either way)",
     "documented refusals: parsimonious ParseError (incl. IncompleteParseError), coco.b09.compiler.ParseError, LineNumberTooLargeException, pydantic ValidationError",
     "'never hangs' is judged as: finishes within 20 s on inputs <= 4 KB (normal cost: milliseconds), re-run once with 120 s before judging",
     "recorded internal failures are recognised by (exception type, innermost function inside coco/), i.e. by call site; any other site is a violation",
@@ -152,9 +154,15 @@ def check_cli(case):
         outp = os.path.join(d, "o.b09")
         with open(inp, "w") as f:
             f.write(case["source"])
+        extra = []
+        if case.get("config_text") is not None:
+            cp = os.path.join(d, "conf.yaml")
+            with open(cp, "w") as f:
+                f.write(case["config_text"])
+            extra = ["-c", cp]
         try:
             with tool.quiet():
-                decb_to_b09.start([inp, outp] + list(case.get("argv", [])))
+                decb_to_b09.start([inp, outp] + list(case.get("argv", [])) + extra)
             case["_status"] = "ok"
             return None
         except SystemExit:
@@ -165,6 +173,7 @@ def check_cli(case):
         except Exception as e:  # noqa
             if not tool.is_internal_error(e):
                 case["_status"] = "refused"
+                case["_refusal"] = type(e).__name__
                 return None
             bucket = bucket_of(e)
     case["_status"] = "internal"
@@ -278,7 +287,28 @@ def cli_names(draw, switches):
         stem = "a" + stem  # a leading dash would be an option, not a file name
     src = draw(st.sampled_from(["10 PRINT \"HI\"", "10 CLS\n20 GOTO 10", "10 A$=STR$(5):HDRAW A$"]))
     argv = draw(st.lists(st.sampled_from(["-l", "-z", "-D", "-w"]), unique=True, max_size=3))
-    return {"kind": "cli", "stem": stem, "source": src, "argv": argv, "_meta": {"kind": "cli", "n_mut": 0, "excluded": {}}}
+    case = {"kind": "cli", "stem": stem, "source": src, "argv": argv, "_meta": {"kind": "cli", "n_mut": 0, "excluded": {}}}
+    if draw(st.booleans()):
+        # a configuration file: always well-formed YAML (JSON is a subset of YAML), of the documented shape, of a near-miss shape or of any shape
+        import json as _json
+
+        names = st.one_of(st.sampled_from(["A$", "AB$", "A$()", "Z9$()", "a$", "A", "ABC$", "$", "A_$", "", "A$(", "1A$"]), st.text(alphabet="AZaz09$()_ ", max_size=5))
+        sizes = st.one_of(st.sampled_from([1, 32, 32766, 0, -1, 32767, 10 ** 9, 5.5, "12", "x", None, True, [1], {}]), st.integers(-5, 40000))
+        mapping = st.dictionaries(names, sizes, max_size=4)
+        leaf = st.one_of(st.none(), st.booleans(), st.integers(-5, 70000), st.floats(allow_nan=False, allow_infinity=False, width=32), st.text(alphabet="AZaz09$() :-#", max_size=6))
+        anything = st.recursive(leaf, lambda ch: st.one_of(st.lists(ch, max_size=3), st.dictionaries(st.text(alphabet="abz_$", max_size=6), ch, max_size=3)), max_leaves=8)
+        shape = draw(st.integers(0, 5))
+        if shape <= 2:
+            obj = {"string_configs": {"strname_to_size": draw(mapping)}}
+        elif shape == 3:
+            obj = {draw(st.sampled_from(["string_configs", "string_config", "strname_to_size", "x"])): draw(st.one_of(mapping, anything))}
+        elif shape == 4:
+            obj = {"string_configs": draw(st.one_of(anything, st.fixed_dictionaries({"strname_to_size": anything})))}
+        else:
+            obj = draw(anything)
+        case["config_text"] = _json.dumps(obj, indent=draw(st.sampled_from([None, 1])))
+        case["_meta"]["kind"] = "cli_config"
+    return case
 
 
 def campaign(seed, n, switches=frozenset(), cli=False):
@@ -298,7 +328,7 @@ def campaign(seed, n, switches=frozenset(), cli=False):
         nt = (meta["kind"] in ("mutate", "splice", "nest") and st_ == "ok") or (st_ == "refused" and case.get("_refusal") in ("ParseError", "LineNumberTooLargeException", "ValidationError"))
         for k, v in meta["excluded"].items():
             stats.excluded[k] += v
-        stats.case(key=case, nontrivial=nt or (meta["kind"] == "cli" and st_ == "ok"), classes=classes,
+        stats.case(key=case, nontrivial=nt or (meta["kind"] in ("cli", "cli_config") and st_ == "ok"), classes=classes,
                    sample={k: v for k, v in case.items() if not k.startswith("_")})
 
     core.run_hypothesis(body, cli_names(switches) if cli else mutated(switches), seed=seed, max_examples=n, stats=stats)
